@@ -53,7 +53,9 @@ sexp sexp_make_integer_from_lsint (sexp ctx, sexp_lsint_t x) {
     if (lsint_lt_0(x)) {
       sexp_bignum_sign(res) = -1;
       sexp_bignum_data(res)[0] = (sexp_uint_t)-lsint_to_sint(x);
-      sexp_bignum_data(res)[1] = (sexp_uint_t)~lsint_to_sint_hi(x);
+      /* -x == ~x + 1: the carry reaches the high word iff the low word is 0 */
+      sexp_bignum_data(res)[1] = (sexp_uint_t)~lsint_to_sint_hi(x)
+        + (sexp_bignum_data(res)[0] == 0);
     } else {
       sexp_bignum_sign(res) = 1;
       sexp_bignum_data(res)[0] = (sexp_uint_t)lsint_to_sint(x);
